@@ -109,6 +109,7 @@ structure RInvM (script : List Op) (t r : Nat) (rs : RouterSt) : Prop where
     rec0 ∈ rs.pending ∨ ∃ treg, i ≤ treg ∧ treg ≤ t ∧ regRec script r treg rec0 ∈ rs.tree
   warmed : rs.warmed = true → rs.pending = []
   cold : rs.warmed = false → rs.tree = []
+  objs : ∀ rec ∈ rs.objs, ∃ i, i < t ∧ Handed script i r rec
 
 section
 variable (script : List Op) (t : Nat) (htl : t < script.length)
@@ -126,7 +127,7 @@ theorem handed_at (r : Nat) (rec : RouteRec) :
 theorem rinvM_keep (r : Nat) (rs rs' : RouterSt) (h : RInvM script t r rs) (hs : List Hid)
     (hsel : (selUse r script[t]).getD [] = hs) (hnone : ∀ rec, ¬ Handed script t r rec)
     (h1 : rs'.mw = rs.mw ++ hs) (h2 : rs'.pending = rs.pending) (h3 : rs'.tree = rs.tree)
-    (h4 : rs'.warmed = rs.warmed) : RInvM script (t + 1) r rs' where
+    (h4 : rs'.warmed = rs.warmed) (h5 : rs'.objs = rs.objs) : RInvM script (t + 1) r rs' where
   mw := by rw [h1, h.mw, usesB_succ _ _ _ htl, hsel]
   pend := by
     intro rec hr
@@ -150,6 +151,11 @@ theorem rinvM_keep (r : Nat) (rs rs' : RouterSt) (h : RInvM script t r rs) (hs :
       exact (hnone rec0 b).elim
   warmed := by rw [h4, h2]; exact h.warmed
   cold := by rw [h4, h3]; exact h.cold
+  objs := by
+    intro rec hr
+    rw [h5] at hr
+    obtain ⟨i, a, b⟩ := h.objs rec hr
+    exact ⟨i, by omega, b⟩
 
 /-- `Warmup` of this router -/
 theorem rinvM_warm (r : Nat) (rs : RouterSt) (h : RInvM script t r rs)
@@ -158,12 +164,12 @@ theorem rinvM_warm (r : Nat) (rs : RouterSt) (h : RInvM script t r rs)
   unfold warmup
   by_cases hw : rs.warmed = true
   · simp only [hw, if_true]
-    exact rinvM_keep script t htl r rs rs h [] (by rw [hsel]; rfl) hnone (by simp) rfl rfl rfl
+    exact rinvM_keep script t htl r rs rs h [] (by rw [hsel]; rfl) hnone (by simp) rfl rfl rfl rfl
   · have hw' : rs.warmed = false := by simpa using hw
     simp only [hw', Bool.false_eq_true, if_false]
     rw [foldl_register]
-    have hk := rinvM_keep script t htl r rs rs h [] (by rw [hsel]; rfl) hnone (by simp) rfl rfl rfl
-    refine ⟨hk.mw, by simp, ?_, ?_, by simp, by simp⟩
+    have hk := rinvM_keep script t htl r rs rs h [] (by rw [hsel]; rfl) hnone (by simp) rfl rfl rfl rfl
+    refine ⟨hk.mw, by simp, ?_, ?_, by simp, by simp, hk.objs⟩
     · intro rec hr
       simp only [List.mem_append, List.mem_map] at hr
       rcases hr with hr | ⟨rt, hrt, rfl⟩
@@ -189,14 +195,20 @@ theorem rinvM_add (r : Nat) (rs : RouterSt) (h : RInvM script t r rs) (recs : Li
   by_cases hne : recs = []
   · subst hne
     exact rinvM_keep script t htl r rs rs h [] (by rw [hsel]; rfl)
-      (by intro rec hx; have := (hrecs rec).mp hx; simp at this) (by simp) rfl rfl rfl
+      (by intro rec hx; have := (hrecs rec).mp hx; simp at this) (by simp) rfl rfl rfl rfl
   · rw [foldl_addRoute recs rs hne]
     have hmw : usesB script (selUse r) (t + 1) = usesB script (selUse r) t := by
       rw [usesB_succ _ _ _ htl, hsel]; simp
     by_cases hw : rs.warmed = true
     · simp only [hw, if_true]
       have hp := h.warmed hw
-      refine ⟨by simp only []; rw [h.mw, hmw], ?_, ?_, ?_, fun _ => hp, fun hx => by simp [hw] at hx⟩
+      refine ⟨by simp only []; rw [h.mw, hmw], ?_, ?_, ?_, fun _ => hp, fun hx => by simp [hw] at hx, (by
+        intro rc hr
+        simp only [List.mem_append] at hr
+        rcases hr with hr | hr
+        · obtain ⟨i, a, b⟩ := h.objs rc hr
+          exact ⟨i, by omega, b⟩
+        · exact ⟨t, by omega, (hrecs rc).mpr hr⟩)⟩
       · intro rc hr; simp only [] at hr; rw [hp] at hr; simp at hr
       · intro rc hr
         simp only [List.mem_append, List.mem_map] at hr
@@ -216,7 +228,13 @@ theorem rinvM_add (r : Nat) (rs : RouterSt) (h : RInvM script t r rs) (recs : Li
           exact Or.inr ⟨rec0, (hrecs rec0).mp b, by simp [regRec, h.mw]⟩
     · have hw' : rs.warmed = false := by simpa using hw
       simp only [hw', Bool.false_eq_true, if_false]
-      refine ⟨by simp only []; rw [h.mw, hmw], ?_, ?_, ?_, fun hx => by simp [hw'] at hx, fun _ => h.cold hw'⟩
+      refine ⟨by simp only []; rw [h.mw, hmw], ?_, ?_, ?_, fun hx => by simp [hw'] at hx, fun _ => h.cold hw', (by
+        intro rc hr
+        simp only [List.mem_append] at hr
+        rcases hr with hr | hr
+        · obtain ⟨i, a, b⟩ := h.objs rc hr
+          exact ⟨i, by omega, b⟩
+        · exact ⟨t, by omega, (hrecs rc).mpr hr⟩)⟩
       · intro rc hr
         simp only [List.mem_append] at hr
         rcases hr with hr | hr
@@ -235,6 +253,36 @@ theorem rinvM_add (r : Nat) (rs : RouterSt) (h : RInvM script t r rs) (recs : Li
           subst this
           exact Or.inl (by simp only [List.mem_append]; exact Or.inr ((hrecs rec0).mp b))
 
+/-- `rt.Where…` on a route of this router -/
+theorem rinvM_rereg (r : Nat) (rs : RouterSt) (h : RInvM script t r rs) (ver : Option Nat) (path : Path)
+    (hsel : selUse r script[t] = none) (hnone : ∀ rec, ¬ Handed script t r rec) :
+    RInvM script (t + 1) r (reRegister ver path rs) := by
+  have hk := rinvM_keep script t htl r rs rs h [] (by rw [hsel]; rfl) hnone (by simp) rfl rfl rfl rfl
+  unfold reRegister
+  cases hf : rs.objs.find? (fun o => o.ver == ver && o.path == path) with
+  | none => exact hk
+  | some o =>
+    simp only []
+    by_cases ha : rs.tree.any (fun rt => rt.ver == ver && rt.path == path) = true
+    · simp only [ha, if_true, register]
+      obtain ⟨i, a1, a2⟩ := h.objs o (List.mem_of_find?_eq_some hf)
+      have hwarm : rs.warmed = true := by
+        cases hw : rs.warmed with
+        | true => rfl
+        | false => rw [h.cold hw] at ha; simp at ha
+      refine ⟨hk.mw, hk.pend, ?_, ?_, hk.warmed, fun hx => by simp [hwarm] at hx, hk.objs⟩
+      · intro rc hr
+        simp only [List.mem_append, List.mem_singleton] at hr
+        rcases hr with hr | rfl
+        · exact hk.tree rc hr
+        · exact ⟨i, o, t, by omega, by omega, by omega, a2, by simp [regRec, h.mw]⟩
+      · intro i' rec0 b1 b2 b3
+        rcases hk.pres i' rec0 b1 b2 b3 with hp | ⟨treg, x, y, z⟩
+        · exact Or.inl hp
+        · exact Or.inr ⟨treg, x, y, by simp only [List.mem_append]; exact Or.inl z⟩
+    · simp only [ha]
+      exact hk
+
 end
 
 /-! ### one step on the routers, `Mount` included -/
@@ -244,6 +292,8 @@ inductive RStepM (w : World) (op : Op) (rs' : List RouterSt) : Prop
   | use (r : Nat) (hs : List Hid) : selUse r op = some hs → (∀ r', r' ≠ r → selUse r' op = none) →
       rs' = modifyAt w.routers r (fun x => { x with mw := x.mw ++ hs }) → handed w op = [] → RStepM w op rs'
   | warm (r : Nat) : op = .warmup r → rs' = modifyAt w.routers r warmup → handed w op = [] → RStepM w op rs'
+  | rereg (r : Nat) (ver : Option Nat) (path : Path) : op = .whereOp r ver path →
+      rs' = modifyAt w.routers r (reRegister ver path) → handed w op = [] → RStepM w op rs'
   | hand (p : Nat) (recs : List RouteRec) : handed w op = recs.map (fun rt => (p, rt)) →
       (∀ r', selUse r' op = none) → rs' = modifyAt w.routers p (fun x => recs.foldl addRoute x) →
       op ≠ .newRouter → (∀ r, op ≠ .warmup r) → RStepM w op rs'
@@ -251,7 +301,7 @@ inductive RStepM (w : World) (op : Op) (rs' : List RouterSt) : Prop
 theorem handed_nomount (w : World) (op : Op) (h : isMount op = false) : handed w op = (routeRecOf w op).toList := by
   cases op <;> first | rfl | (simp [isMount, isMountOp] at h)
 
-theorem rstepM (w : World) (op : Op) (hwh : isWhereOp op = false) : RStepM w op (apply w op).routers := by
+theorem rstepM (w : World) (op : Op) : RStepM w op (apply w op).routers := by
   by_cases hm : isMount op = true
   · cases op <;> simp [isMount, isMountOp] at hm
     case mount p s seg inh extra =>
@@ -260,7 +310,7 @@ theorem rstepM (w : World) (op : Op) (hwh : isWhereOp op = false) : RStepM w op 
       rw [mountOp_eq, foldl_addRouteOn_routers]
   · have hm' : isMount op = false := by simpa using hm
     have hh := handed_nomount w op hm'
-    cases rstep w op hm' hwh with
+    cases rstep w op hm' with
     | new h1 h2 => exact .new h1 h2 (by rw [hh, h1]; rfl)
     | use r hs h1 h2 h3 h4 => exact .use r hs h1 h2 h3 (by rw [hh, h4]; rfl)
     | warm r h1 h2 => exact .warm r h1 h2 (by rw [hh, h1]; rfl)
@@ -268,13 +318,11 @@ theorem rstepM (w : World) (op : Op) (hwh : isWhereOp op = false) : RStepM w op 
       refine .hand r [rec] (by rw [hh, h1]; rfl) h2 (by rw [h3]; rfl) ?_ ?_
       · intro hx; rw [hx] at h1; simp [routeRecOf] at h1
       · intro r' hx; rw [hx] at h1; simp [routeRecOf] at h1
+    | rereg r v p h1 h2 => exact .rereg r v p h1 h2 (by rw [hh, h1]; rfl)
     | same h1 h2 h3 h4 h5 =>
       exact .hand 0 [] (by rw [hh, h1]; rfl) h2 (by rw [h5]; simp [modifyAt_id]) h3 h4
 
-/-- no constraint is added to a route after its declaration -/
-def NoWhere (script : List Op) : Prop := ∀ op ∈ script, isWhereOp op = false
-
-theorem routers_length_M (script : List Op) (hnw : NoWhere script) :
+theorem routers_length_M (script : List Op) :
     ∀ t, t ≤ script.length → (W script t).routers.length = 1 + cnt isNewRouter script t := by
   intro t
   induction t with
@@ -282,7 +330,7 @@ theorem routers_length_M (script : List Op) (hnw : NoWhere script) :
   | succ t ih =>
     intro ht
     have htl : t < script.length := ht
-    have hs := rstepM (W script t) script[t] (hnw script[t] (List.getElem_mem htl))
+    have hs := rstepM (W script t) script[t]
     rw [← W_succ script t htl] at hs
     have hcnt := cnt_succ isNewRouter script t htl
     have ih' := ih (Nat.le_of_lt htl)
@@ -293,6 +341,7 @@ theorem routers_length_M (script : List Op) (hnw : NoWhere script) :
         cases hop : script[t] <;> simp [isNewRouter, isNewRouterOp] <;> rw [hop] at h1 <;> simp [selUse] at h1
       rw [h3, modifyAt_length, hcnt, this, ih']; simp
     | warm r h1 h2 _ => rw [h2, modifyAt_length, hcnt, h1, ih']; simp [isNewRouter, isNewRouterOp]
+    | rereg r v p h1 h2 _ => rw [h2, modifyAt_length, hcnt, h1, ih']; simp [isNewRouter, isNewRouterOp]
     | hand p recs h1 h2 h3 h4 h5 =>
       have : isNewRouter script[t] = false := by
         cases hop : script[t] <;> simp [isNewRouter, isNewRouterOp]
@@ -302,7 +351,7 @@ theorem routers_length_M (script : List Op) (hnw : NoWhere script) :
 /-- only the serving router is ever warmed up explicitly -/
 def SubsCold (script : List Op) : Prop := ∀ op ∈ script, ∀ r, op = .warmup r → r = 0
 
-theorem rinvM (script : List Op) (hnw : NoWhere script) (hwf : WFR script) :
+theorem rinvM (script : List Op) (hwf : WFR script) :
     ∀ t, t ≤ script.length → ∀ r rs, (W script t).routers[r]? = some rs → RInvM script t r rs := by
   intro t
   induction t with
@@ -314,14 +363,14 @@ theorem rinvM (script : List Op) (hnw : NoWhere script) (hwf : WFR script) :
       | zero => simp at h; exact ⟨rfl, h.symm⟩
       | succ r => simp at h
     obtain ⟨rfl, rfl⟩ := this
-    exact ⟨by simp [usesB_zero], by simp, by simp, by intro i rec0 h2; omega, by simp, by simp⟩
+    exact ⟨by simp [usesB_zero], by simp, by simp, by intro i rec0 h2; omega, by simp, by simp, by simp⟩
   | succ t ih =>
     intro ht r rs hr
     have htl : t < script.length := ht
     have ih' := ih (Nat.le_of_lt htl)
-    have hs := rstepM (W script t) script[t] (hnw script[t] (List.getElem_mem htl))
+    have hs := rstepM (W script t) script[t]
     rw [← W_succ script t htl] at hs
-    have hlen := routers_length_M script hnw t (Nat.le_of_lt htl)
+    have hlen := routers_length_M script t (Nat.le_of_lt htl)
     have hH := handed_at script t htl
     cases hs with
     | new h1 h2 h3 =>
@@ -331,7 +380,7 @@ theorem rinvM (script : List Op) (hnw : NoWhere script) (hwf : WFR script) :
         intro r' rec hx; rw [hH, h3] at hx; simp at hx
       rcases Nat.lt_or_ge r (W script t).routers.length with hlt | hge
       · rw [List.getElem?_append_left hlt] at hr
-        exact rinvM_keep script t htl r rs rs (ih' r rs hr) [] (by rw [hsel]; rfl) (hnone r) (by simp) rfl rfl rfl
+        exact rinvM_keep script t htl r rs rs (ih' r rs hr) [] (by rw [hsel]; rfl) (hnone r) (by simp) rfl rfl rfl rfl
       · rw [List.getElem?_append_right hge] at hr
         have hr0 : r = (W script t).routers.length := by
           cases hx : r - (W script t).routers.length with
@@ -339,11 +388,11 @@ theorem rinvM (script : List Op) (hnw : NoWhere script) (hwf : WFR script) :
           | succ j => rw [hx] at hr; simp at hr
         simp [hr0] at hr
         subst hr
-        refine ⟨?_, by simp, by simp, ?_, by simp, by simp⟩
+        refine ⟨?_, by simp, by simp, ?_, by simp, by simp, by simp⟩
         · show ([] : List Hid) = _
           rw [usesB_succ _ _ _ htl, hsel r, usesB_router_future_nil script hwf r t (by omega)]; rfl
         · intro i rec0 a b c
-          have hli := routers_length_M script hnw i (by omega)
+          have hli := routers_length_M script i (by omega)
           have := cnt_mono isNewRouter script i t (by omega)
           omega
     | use r0 hs h1 h2 h3 h4 =>
@@ -357,10 +406,10 @@ theorem rinvM (script : List Op) (hnw : NoWhere script) (hwf : WFR script) :
         | none => rw [hold] at hr; simp at hr
         | some rs0 =>
           rw [hold] at hr; simp at hr; subst hr
-          exact rinvM_keep script t htl r0 rs0 _ (ih' r0 rs0 hold) hs (by rw [h1]; rfl) (hnone r0) rfl rfl rfl rfl
+          exact rinvM_keep script t htl r0 rs0 _ (ih' r0 rs0 hold) hs (by rw [h1]; rfl) (hnone r0) rfl rfl rfl rfl rfl
       · simp only [hrr, if_false] at hr
         exact rinvM_keep script t htl r rs rs (ih' r rs hr) [] (by rw [h2 r (Ne.symm hrr)]; rfl) (hnone r)
-          (by simp) rfl rfl rfl
+          (by simp) rfl rfl rfl rfl
     | warm r0 h1 h2 h3 =>
       have hsel : ∀ r', selUse r' script[t] = none := by intro r'; rw [h1]; rfl
       have hnone : ∀ r' rec, ¬ Handed script t r' rec := by
@@ -375,7 +424,22 @@ theorem rinvM (script : List Op) (hnw : NoWhere script) (hwf : WFR script) :
           rw [hold] at hr; simp at hr; subst hr
           exact rinvM_warm script t htl r0 rs0 (ih' r0 rs0 hold) (hsel r0) (hnone r0)
       · simp only [hrr, if_false] at hr
-        exact rinvM_keep script t htl r rs rs (ih' r rs hr) [] (by rw [hsel]; rfl) (hnone r) (by simp) rfl rfl rfl
+        exact rinvM_keep script t htl r rs rs (ih' r rs hr) [] (by rw [hsel]; rfl) (hnone r) (by simp) rfl rfl rfl rfl
+    | rereg r0 v p h1 h2 h3 =>
+      have hsel : ∀ r', selUse r' script[t] = none := by intro r'; rw [h1]; rfl
+      have hnone : ∀ r' rec, ¬ Handed script t r' rec := by
+        intro r' rec hx; rw [hH, h3] at hx; simp at hx
+      rw [h2, modifyAt_getElem?] at hr
+      by_cases hrr : r0 = r
+      · subst hrr
+        simp only [if_true] at hr
+        cases hold : (W script t).routers[r0]? with
+        | none => rw [hold] at hr; simp at hr
+        | some rs0 =>
+          rw [hold] at hr; simp at hr; subst hr
+          exact rinvM_rereg script t htl r0 rs0 (ih' r0 rs0 hold) v p (hsel r0) (hnone r0)
+      · simp only [hrr, if_false] at hr
+        exact rinvM_keep script t htl r rs rs (ih' r rs hr) [] (by rw [hsel]; rfl) (hnone r) (by simp) rfl rfl rfl rfl
     | hand p recs h1 h2 h3 h4 h5 =>
       rw [h3, modifyAt_getElem?] at hr
       by_cases hrr : p = r
@@ -389,7 +453,7 @@ theorem rinvM (script : List Op) (hnw : NoWhere script) (hwf : WFR script) :
             intro rec; rw [hH, h1]; simp)
       · simp only [hrr, if_false] at hr
         exact rinvM_keep script t htl r rs rs (ih' r rs hr) [] (by rw [h2]; rfl) (by
-          intro rec hx; rw [hH, h1] at hx; simp at hx; exact hrr hx.2) (by simp) rfl rfl rfl
+          intro rec hx; rw [hH, h1] at hx; simp at hx; exact hrr hx.2) (by simp) rfl rfl rfl rfl
 
 /-! ### well-formedness with mounts -/
 
@@ -436,7 +500,14 @@ theorem foldl_addRoute_warmed (recs : List RouteRec) (rs : RouterSt) :
   | nil => rfl
   | cons a l ih => rw [List.foldl_cons, ih, (addRoute_fields rs a).2]
 
-theorem subs_cold (script : List Op) (hnw : NoWhere script) (hc : SubsCold script) :
+theorem reRegister_warmed (ver : Option Nat) (path : Path) (rs : RouterSt) :
+    (reRegister ver path rs).warmed = rs.warmed := by
+  unfold reRegister
+  split
+  · split <;> rfl
+  · rfl
+
+theorem subs_cold (script : List Op) (hc : SubsCold script) :
     ∀ t, t ≤ script.length → ∀ r rs, 1 ≤ r → (W script t).routers[r]? = some rs → rs.warmed = false := by
   intro t
   induction t with
@@ -450,7 +521,7 @@ theorem subs_cold (script : List Op) (hnw : NoWhere script) (hc : SubsCold scrip
     intro ht r rs h1 hr
     have htl : t < script.length := ht
     have ih' := ih (Nat.le_of_lt htl)
-    have hs := rstepM (W script t) script[t] (hnw script[t] (List.getElem_mem htl))
+    have hs := rstepM (W script t) script[t]
     rw [← W_succ script t htl] at hs
     cases hs with
     | new a b _ =>
@@ -477,6 +548,17 @@ theorem subs_cold (script : List Op) (hnw : NoWhere script) (hc : SubsCold scrip
       have : (0 : Nat) ≠ r := by omega
       simp only [this, if_false] at hr
       exact ih' r rs h1 hr
+    | rereg r0 v p a b _ =>
+      rw [b, modifyAt_getElem?] at hr
+      by_cases hrr : r0 = r
+      · subst hrr
+        simp only [if_true] at hr
+        cases hold : (W script t).routers[r0]? with
+        | none => rw [hold] at hr; simp at hr
+        | some rs0 =>
+          rw [hold] at hr; simp at hr; subst hr
+          rw [reRegister_warmed]; exact ih' r0 rs0 h1 hold
+      · simp only [hrr, if_false] at hr; exact ih' r rs h1 hr
     | hand p recs a b c _ _ =>
       rw [c, modifyAt_getElem?] at hr
       by_cases hrr : p = r
@@ -539,7 +621,7 @@ theorem matchLevels_append_must (must may : List Hid) (ls : List Level) (c : Lis
   have := matchLevels_cons must may [] c ls (List.nil_sublist _) hc
   simpa using this
 
-theorem bridge (script : List Op) (hnw : NoWhere script) (hwf : WFM script) (hc : SubsCold script) :
+theorem bridge (script : List Op) (hwf : WFM script) (hc : SubsCold script) :
     ∀ j r rec, Handed script j r rec → IDesc script r rec j := by
   intro j
   induction j using Nat.strongRecOn with
@@ -553,9 +635,9 @@ theorem bridge (script : List Op) (hnw : NoWhere script) (hwf : WFM script) (hc 
         have hrt := hwf.rt j _ hop
         simp only [] at hrt
         -- the sub-router is cold: the record was still pending there
-        have hcold := subs_cold script hnw hc j (Nat.le_of_lt hjl) s sr (by omega) hs
-        have hinvS := rinvM script hnw hwf.r j (Nat.le_of_lt hjl) s sr hs
-        have hinvP := rinvM script hnw hwf.r j (Nat.le_of_lt hjl) r pr hp
+        have hcold := subs_cold script hc j (Nat.le_of_lt hjl) s sr (by omega) hs
+        have hinvS := rinvM script hwf.r j (Nat.le_of_lt hjl) s sr hs
+        have hinvP := rinvM script hwf.r j (Nat.le_of_lt hjl) r pr hp
         have hpend : recS ∈ sr.pending := by
           rcases hin with h | h
           · exact h
@@ -607,12 +689,12 @@ theorem vrouter_is_serving (script : List Op) (hwf : WFM script) (t v r ver : Na
   case aversion ver' => exact h4.1.symm
 
 /-- the router a declaring op hands its record to exists -/
-theorem decl_router_exists (script : List Op) (hnw : NoWhere script) (hwf : WFM script) (j : Nat) (op : Op) (r : Nat) (rec : RouteRec)
+theorem decl_router_exists (script : List Op) (hwf : WFM script) (j : Nat) (op : Op) (r : Nat) (rec : RouteRec)
     (hop : script[j]? = some op) (hrec : routeRecOf (W script j) op = some (r, rec)) :
     r < (W script j).routers.length := by
   have hjl := lt_of_getElem? hop
   have hjle : j ≤ script.length := Nat.le_of_lt hjl
-  have hlen := routers_length_M script hnw j hjle
+  have hlen := routers_length_M script j hjle
   have hzero : 0 < (W script j).routers.length := by omega
   cases op with
   | route o seg hs =>
@@ -668,13 +750,13 @@ theorem decl_router_exists (script : List Op) (hnw : NoWhere script) (hwf : WFM 
       rw [vrouter_is_serving script hwf j p.owner r' ver hjle hv]; exact hzero
   | _ => simp [routeRecOf] at hrec
 
-theorem routers_length_mono (script : List Op) (hnw : NoWhere script) (a b : Nat) (hab : a ≤ b) (hb : b ≤ script.length) :
+theorem routers_length_mono (script : List Op) (a b : Nat) (hab : a ≤ b) (hb : b ≤ script.length) :
     (W script a).routers.length ≤ (W script b).routers.length := by
-  rw [routers_length_M script hnw a (Nat.le_trans hab hb), routers_length_M script hnw b hb]
+  rw [routers_length_M script a (Nat.le_trans hab hb), routers_length_M script b hb]
   have := cnt_mono isNewRouter script a b hab
   omega
 
-theorem presence (script : List Op) (hnw : NoWhere script) (hwf : WFM script) (hc : SubsCold script) (i rr : Nat) (ver0 : Option Nat)
+theorem presence (script : List Op) (hwf : WFM script) (hc : SubsCold script) (i rr : Nat) (ver0 : Option Nat)
     (path0 : Path) (gls : List Level) (hs : List Hid)
     (hri : routeInfo script i = some (rr, ver0, path0, gls, hs)) :
     ∀ (js : List Nat) (r : Nat) (mpre : Path) (mls : List Level),
@@ -706,7 +788,7 @@ theorem presence (script : List Op) (hnw : NoWhere script) (hwf : WFM script) (h
         have hm : isMount op = false := by
           cases op <;> first | rfl | (simp [routeRecOf] at hrec)
         refine ⟨rec0, ⟨op, hop, ?_⟩, by simp,
-          decl_router_exists script hnw hwf i op r rec0 hop hrec, lt_of_getElem? hop, by simp [e2]⟩
+          decl_router_exists script hwf i op r rec0 hop hrec, lt_of_getElem? hop, by simp [e2]⟩
         show (r, rec0) ∈ handed (W script i) op
         rw [handed_nomount _ _ hm, hrec]; simp
     · simp [hr] at hml
@@ -730,13 +812,13 @@ theorem presence (script : List Op) (hnw : NoWhere script) (hwf : WFM script) (h
           have hjl := lt_of_getElem? hop
           have hrt := hwf.rt j _ hop
           simp only [] at hrt
-          have hlenj := routers_length_M script hnw j (Nat.le_of_lt hjl)
+          have hlenj := routers_length_M script j (Nat.le_of_lt hjl)
           have hs_lt : s < (W script j).routers.length := by rw [hlenj]; exact hrt.2
           have hp_lt : p < (W script j).routers.length := by omega
           have hsr := List.getElem?_eq_getElem hs_lt
           have hpr := List.getElem?_eq_getElem hp_lt
-          have hinvS := rinvM script hnw hwf.r j (Nat.le_of_lt hjl) s _ hsr
-          have hcold := subs_cold script hnw hc j (Nat.le_of_lt hjl) s _ (by omega) hsr
+          have hinvS := rinvM script hwf.r j (Nat.le_of_lt hjl) s _ hsr
+          have hcold := subs_cold script hc j (Nat.le_of_lt hjl) s _ (by omega) hsr
           have hpend : recS ∈ ((W script j).routers[s]).pending := by
             rcases hinvS.pres (arr js i) recS htn hH hex with h | ⟨treg, _, _, h⟩
             · exact h
@@ -922,7 +1004,7 @@ theorem getLast?_append_some {α} (a b : List α) (x : α) (h : b.getLast? = som
 
 /-- **Soundness of the composition model, `Mount` included** — for scripts in which only the
     serving router is warmed up explicitly. -/
-theorem compose_admitted_mount (script : List Op) (hnw : NoWhere script) (hwf : WFM script) (hc : SubsCold script) (tg : Target)
+theorem compose_admitted_mount (script : List Op) (hwf : WFM script) (hc : SubsCold script) (tg : Target)
     (ver : Option Nat) (path : Path) (ls : List Level) (hl : levels script tg = some (ver, path, ls)) :
     ∃ chain, compose script ver path = some chain ∧ matchLevels ls chain = true := by
   obtain ⟨js, i⟩ := tg
@@ -938,7 +1020,7 @@ theorem compose_admitted_mount (script : List Op) (hnw : NoWhere script) (hwf : 
       obtain ⟨mpre, mls⟩ := y0
       simp only [hml, Option.bind_some, Option.some.injEq, Prod.mk.injEq] at hl
       obtain ⟨rfl, rfl, rfl⟩ := hl
-      obtain ⟨rec, hH, hpath, hex, harrlt, hver⟩ := presence script hnw hwf hc i rr ver path0 gls hs hri js 0 mpre mls hml
+      obtain ⟨rec, hH, hpath, hex, harrlt, hver⟩ := presence script hwf hc i rr ver path0 gls hs hri js 0 mpre mls hml
       have hv : rec.ver = ver := by
         by_cases hjs : js = []
         · simpa [hjs] using hver
@@ -951,12 +1033,12 @@ theorem compose_admitted_mount (script : List Op) (hnw : NoWhere script) (hwf : 
             omega
       obtain ⟨sg, opi, hsg, hopi, hsegi⟩ := routeInfo_seg script hwf.toWF i rr ver path0 gls hs hri
       -- router 0 at the end of the script
-      have hlen := routers_length_M script hnw script.length (Nat.le_refl _)
+      have hlen := routers_length_M script script.length (Nat.le_refl _)
       have h0lt : 0 < (W script script.length).routers.length := by omega
       have hrs0 : (W script script.length).routers[0]? = some (W script script.length).routers[0] :=
         List.getElem?_eq_getElem h0lt
       generalize (W script script.length).routers[0] = rs0 at hrs0
-      have hinv := rinvM script hnw hwf.r script.length (Nat.le_refl _) 0 rs0 hrs0
+      have hinv := rinvM script hwf.r script.length (Nat.le_refl _) 0 rs0 hrs0
       have hcomp : compose script ver (mpre ++ path0) = findRoute (warmup rs0).tree ver (mpre ++ path0) := by
         unfold compose
         rw [← W_full, hrs0]
@@ -1007,7 +1089,7 @@ theorem compose_admitted_mount (script : List Op) (hnw : NoWhere script) (hwf : 
       have hpath' : rec0'.path = mpre ++ path0 := by rw [← hyp.2, b4]; rfl
       -- the oracle's description of the record that was found
       obtain ⟨js', i'', rr', ver', path0', gls', hs', mpre', mls', d1, d2, d3, d4, d5, d6, sg', opi', d7, d8, d9⟩ :=
-        bridge script hnw hwf hc i' 0 rec0' b3
+        bridge script hwf hc i' 0 rec0' b3
       have hlast : (mpre ++ path0).getLast? = some sg := getLast?_append_some _ _ _ hsg
       have hlast' : (mpre' ++ path0').getLast? = some sg' := getLast?_append_some _ _ _ d7
       rw [← d4, hpath', hlast] at hlast'
@@ -1038,11 +1120,6 @@ theorem compose_admitted_mount (script : List Op) (hnw : NoWhere script) (hwf : 
       rw [show arrival js' i'' = i' from d1, hmid, routerLevel_eq, splitAt_eq]
       have := matchLevels_cons (usesB script (selUse 0) i') _ mid _ (mls ++ gls ++ [(hs, [])]) hsub d6
       simpa [usesB, List.append_assoc] using this
-
-theorem noWhere_of_noWhereB (script : List Op) (h : noWhereB script = true) : NoWhere script := by
-  intro op hop
-  simp only [noWhereB, List.all_eq_true] at h
-  simpa using h op hop
 
 theorem subsCold_of_subsColdB (script : List Op) (h : subsColdB script = true) : SubsCold script := by
   intro op hop r hr
